@@ -220,7 +220,8 @@ class Check:
         for v in self.violations:
             hit = [k for k in known.get("findings", []) if k["property"] == self.pid and k["key"] == v["key"]]
             if hit:
-                print(f"KNOWN-FINDING: property={self.pid} {hit[0]['what']}")
+                if v["key"] not in self.known_hits:
+                    print(f"KNOWN-FINDING: property={self.pid} {hit[0]['what']}")
                 self.known_hits.append(v["key"])
             else:
                 real.append(v)
@@ -264,30 +265,39 @@ def load_known():
 
 def trace_check(chk, spec_tla, cfg, summary, classify=None, label="trace"):
     """Validate every trace file of a harness summary; turn rejections into violations.
-    `classify(record, run)` may map a rejected record to a violation key."""
+    `classify(record, run, result, records)` may map a rejected record to a violation key. A
+    rejection whose key is a listed known finding is reported once, its line is excised and the
+    rest of the file is validated again, so a known defect does not hide anything behind it."""
     files = summary["files"]
-    results = validate_traces(spec_tla, cfg, files)
+    known_keys = {k["key"] for k in load_known().get("findings", []) if k["property"] == chk.pid}
     total_lines = 0
-    for res in results:
-        total_lines += res["lines"]
-        if res.get("error"):
-            chk.tool_errors.append(f"trace validation {res['file']}: {res['error']}\n{res.get('tail','')}")
-            continue
-        if not res["ok"]:
+    results = []
+    pending = list(files)
+    rounds = 0
+    while pending and rounds < 40:
+        rounds += 1
+        batch = validate_traces(spec_tla, cfg, pending)
+        pending = []
+        for res in batch:
+            if res.get("error"):
+                chk.tool_errors.append(f"trace validation {res['file']}: {res['error']}\n{res.get('tail','')}")
+                results.append(res)
+                continue
+            if res["ok"]:
+                total_lines += res["lines"]
+                results.append(res)
+                continue
             line = res["invariant"]["line"] if res["invariant"] else res["rejected_line"]
             recs = read_trace(res["file"])
             rec = recs[line - 1] if 0 < line <= len(recs) else {"ev": "eof"}
             run = run_of_line(summary, res["file"], line) or {}
             what = (f"invariant {res['invariant']['name']} violated after line {line} {res['invariant']['info']}"
                     if res["invariant"] else f"no action of {spec_tla} explains line {line}")
-            key = None
-            if classify:
-                key = classify(rec, run, res)
+            key = classify(rec, run, res, recs) if classify else None
             if key is None:
                 key = f"{label}:{res['invariant']['name'] if res['invariant'] else 'rejected'}:{rec.get('ev')}"
             keep = os.path.join(REPLAYS, f"{chk.pid}-{os.path.basename(res['file'])}")
             os.makedirs(REPLAYS, exist_ok=True)
-            # keep only the offending run's slice of the trace
             lo, hi = run.get("first_line", 1), run.get("last_line", len(recs))
             with open(keep, "w") as f:
                 for r in recs[lo - 1:hi]:
@@ -296,6 +306,21 @@ def trace_check(chk, spec_tla, cfg, summary, classify=None, label="trace"):
                           {"trace": keep, "line_in_run": line - lo + 1, "record": rec,
                            "scenario": summary.get("scenario"), "seed": run.get("seed"),
                            "args": summary.get("args")})
+            if key in known_keys and not res["invariant"] and 0 < line <= len(recs):
+                # excise the offending line and validate the remainder
+                nf = res["file"] if res["file"].endswith(".kf.ndjson") else res["file"].replace(".ndjson", ".kf.ndjson")
+                with open(nf, "w") as f:
+                    for i, r in enumerate(recs):
+                        if i == line - 1:
+                            r = {"ev": "obs.known_finding", "key": key, "t": r.get("t", 0), "node": r.get("node", -1),
+                                 "seq": r.get("seq", 0), "nonce": r.get("nonce", 0), "was": r.get("ev")}
+                        f.write(json.dumps(r) + "\n")
+                for r_ in summary["runs"]:
+                    if r_["file"] == res["file"]:
+                        r_["file"] = nf
+                pending.append(nf)
+            else:
+                results.append(res)
     ok_runs = 0
     for r in summary["runs"]:
         if r["panics"]:
